@@ -410,9 +410,14 @@ fn e1_tape(
 
 pub fn run(ctx: &Ctx) -> i32 {
     let out = match ctx.prop.as_str() {
-        "C01" => msg_family(ctx, false, "fam_msg_s1",
+        "C01" => {
+            let mut out = msg_family(ctx, false, "fam_msg_s1",
             "programs drawn from the fam_msg generator (S1 method names); per handler `cases` argument tuples from per-type JSON strategies; oracle = model JSON {name:{arg:enc}} vs to_json, literal==constructor, from_json of own and model text; plus per message type the accept/reject set over all method names and their mutations. Non-trivial = handler has >=1 argument or a multi-word / digit-bearing name (distinct by program, handler, argument values), or a foreign-name acceptance probe.",
-            &[A_SERDE, A_NATIVE, A_DOMAIN, "floats and raw u128 are excluded (CosmWasm JSON rejects them)"]),
+            &[A_SERDE, A_NATIVE, A_DOMAIN, "floats and raw u128 are excluded (CosmWasm JSON rejects them)"]);
+            out.rule.push_str(" || (E3 probe units) for 17 argument names that coincide with identifiers used inside the generated code (contract, ctx, msg, deps, env, info, field1, ..) x the five kinds: the program must compile.");
+            crate::e3props::run_probes(ctx, "units_c01", crate::e3props::c01_probes(), None, &mut out);
+            out
+        }
         "C02" => msg_family(ctx, false, "fam_msg_s1",
             "fam_msg programs with echo handlers; per handler `cases` tuples (argument values, env, sender/funds, storage/api/querier nonces, ok/fail outcome); message dispatched on the part type and through the contract-level wrapper; oracle = call log == [that handler] once with equal args/env/info and nonce probes, caller's response / error / query payload equal to the handler's own. Non-trivial = two same-typed arguments, a same-signature sibling handler, or the failing outcome.",
             &[A_ECHO, A_SERDE, A_NATIVE, A_DOMAIN, "mock storage/api/querier stand in for the chain"]),
@@ -429,7 +434,10 @@ pub fn run(ctx: &Ctx) -> i32 {
             let a = runtime_prop(ctx, "C05A",
                 "(a) sylvia::utils::assert_no_intersection called at run time: exhaustively all 69 905 tuples of 0..=4 strictly sorted duplicate-free lists over subsets of {a, ab, b, ba} (prefixes occur), plus random tuples of 0..=6 lists of 0..8 arbitrary strings (empty, shared prefixes, multi-byte Unicode; sorted bytewise as the generated code does); oracle = naive pairwise intersection: panics iff some string occurs in two lists. Non-trivial = >=2 non-empty lists whose ranges interleave.",
                 &["lists are sorted and duplicate-free: the precondition the generated code establishes (checked separately by part c)"]);
-            merge_outcomes(c, a)
+            let mut out = merge_outcomes(c, a);
+            out.rule.push_str(" || (b, E3 compile units) fam_msg programs edited so that exactly two parts expose one shared wire name for one kind (same name, or the near-collision foo1 / foo_1; contract/interface and interface/interface; first / last position): cargo check must fail with `Message overlaps between interface and contract impl`; the unedited twin must compile.");
+            crate::e3props::run_probes(ctx, "units_c05", crate::e3props::c05b_probes(ctx), None, &mut out);
+            out
         }
         "C11" => {
             let b = msg_family(ctx, true, "fam_msg_s2",
@@ -440,15 +448,44 @@ pub fn run(ctx: &Ctx) -> i32 {
                 &["feature set = mt, stargate, iterator, cosmwasm_1_4, staking (what the repository's workspace build unifies to)"]);
             merge_outcomes(b, a)
         }
+        "C19" => {
+            // (a) the families under a renamed dependency
+            let quick = ctx.quick();
+            let (nm, nr, cases) = if quick { (16usize, 16usize, 32u32) } else { (96, 96, 128) };
+            let rule_a = "(a) fam_msg and fam_reply programs (every code-generation branch: all kinds, replies with partial coverage, interfaces with custom flags, generics, mt helpers, entry points) compiled in a crate whose only path to the framework is `svx = { package = \"sylvia\" }`; they must compile and pass the C01, C02 and C07 oracles.";
+            let msg_programs = replay_programs(ctx).unwrap_or_else(|| crate::fam_msg(ctx.seed ^ 0x19, nm, &msg_opts_s1()));
+            let mut out = Outcome { rule: rule_a.to_string(), ..Default::default() };
+            for prop in ["C01", "C02"] {
+                let o = e2_run(ctx, E2Spec { exe_prop: Some(prop), family: "alias_msg", programs: msg_programs.clone(), cases, rule: "", assumptions: vec![A_NATIVE.into(), A_DOMAIN.into()], alias: Some("svx") });
+                let r = out.rule.clone();
+                out = merge_outcomes(out, o);
+                out.rule = r;
+            }
+            if ctx.replay.is_none() {
+                let reply_programs = crate::fam_reply(ctx.seed ^ 0x19, nr, &GenOpts::default(), true);
+                let o = e2_run(ctx, E2Spec { exe_prop: Some("C07"), family: "alias_reply", programs: reply_programs, cases: cases * 3, rule: "", assumptions: vec![A_REPLY.into()], alias: Some("svx") });
+                let r = out.rule.clone();
+                out = merge_outcomes(out, o);
+                out.rule = r;
+            }
+            out.rule.push_str(" || (b, E3 compile units) a generic contract using its parameter in instantiate/exec/query/sudo/migrate arguments, with partially covered reply handlers, an interface, entry points and mt helpers, once for every single letter A..Z and for each of Msg, Query, Param, Data, Item, Value, Key, Resp, Custom, State, Config, Payload, Event, Exec, Sudo as parameter name, plus two-parameter units drawn from the seed: must compile. Non-trivial = every unit (all exercise the reply pass-through arms).");
+            crate::e3props::run_probes(ctx, "units_c19", crate::e3props::c19b_probes(ctx), None, &mut out);
+            out
+        }
         "C20" => runtime_prop(ctx, "C20",
             "arbitrary address strings (plain, bech32-like, quotes, control characters, Unicode) x Remote<T> for T in {a struct, (), unsized str, dyn Trait<Error=.., Param=..> with two different bindings} x owned / borrowed: to_json_string parsed == {\"addr\": s} with exactly one member; identical bytes and identical schema_for! across all T; schema titled Remote with the single required property addr; from_json of the model's own text gives a handle whose as_ref() is the address; update_admin / clear_admin address the handle's contract. Non-trivial = every distinct address (classes: needs JSON escaping / plain).",
             &["type parameters are local stand-ins (the encoding must not depend on them)"]),
         "C07" => reply_family(ctx, true, "fam_reply",
             "fam_reply programs; `cases` replies per program: every declared id and ids belonging to no handler, Ok(SubMsgResponse{0..3 events, data by class, 0..2 msg responses}) / Err(text), any gas_used, payload built by the generated sub-message builder or garbage; through sv::dispatch_reply and the generated reply entry point; reference model computed from the program model: covered outcome => exactly the declared method runs once with the documented arguments and context (gas, env, storage; events/msg responses for success methods), uncovered success => events+data passed through, uncovered failure => that error as the contract's error, unknown id / undecodable payload => error and no handler. Non-trivial = uncovered outcome or an `always` handler.",
             &[A_ECHO, A_NATIVE, A_REPLY, "valid payload bytes are obtained from the generated builder (its agreement with dispatch is C08)"]),
-        "C08" => reply_family(ctx, true, "fam_reply",
+        "C08" => {
+            let mut out = reply_family(ctx, true, "fam_reply",
             "fam_reply programs; ids of distinct handler names pairwise distinct; per handler name `cases` tuples (receiver in {SubMsg with arbitrary id/gas limit/reply_on/payload, WasmMsg, CosmosMsg of every kind}, payload values): builder result compared field-wise with the model (id constant, reply_on from the set of covered outcomes, wrapped message unchanged, gas limit kept / None, raw payload byte for byte) and then dispatched back through dispatch_reply where the handler must receive equal payload values. Non-trivial = >=2 typed payload values or a raw payload with non-UTF-8 bytes.",
-            &[A_ECHO, A_NATIVE, A_REPLY]),
+            &[A_ECHO, A_NATIVE, A_REPLY]);
+            out.rule.push_str(" || (E3 probe units) payload parameter names coinciding with locals of the generated dispatcher x {success, error, always}; a payload typed by a contract type parameter; handler names h1 / h_1 (distinct names must get distinct ids): each program must compile.");
+            crate::e3props::run_probes(ctx, "units_c08", crate::e3props::c08_probes(), None, &mut out);
+            out
+        }
         "C09" => reply_family(ctx, true, "fam_reply",
             "fam_reply programs; for every success handler `cases` replies whose data is drawn from the classes absent / well-formed / envelope-malformed (length overrun, wrong wire type, oversized varint, truncated) / JSON-malformed (wrong type, truncated, trailing bytes) / envelope without inner data / envelope of the other kind / random bytes; expected outcome from the data-mode table in the rustdoc of `contract`, using an independent protobuf writer, cw_utils' parsers as the envelope reference and the data type's own serde impl; any failure must be Err with an empty call log. Non-trivial = handler with a data marker (distinct by row, data bytes).",
             &[A_ECHO, A_NATIVE, A_REPLY, "the cell `opt` marker + well-formed envelope without inner data is not specified by the documentation: either None delivered or a missing-data error is accepted"]),
@@ -489,11 +526,18 @@ pub fn run(ctx: &Ctx) -> i32 {
                 Ok(exe) => crate::c18::run(ctx, &exe, &mut out),
                 Err(e) => out.inconclusive = Some(e),
             }
+            out.rule.push_str(" || (b, E3 compile units) one unit per catalogue entry (base program re-drawn per seed): cargo check must fail with an error containing the documented message fragment, located at or after the first line of the offending item.");
+            crate::e3props::run_probes(ctx, "units_c18", crate::e3props::c18b_probes(ctx), None, &mut out);
             out
         }
-        "C15" => e1_tape(ctx, "generics", if ctx.quick() { 2000 } else { 40000 }, crate::e1props::c15a_case,
+        "C15" => {
+            let mut out = e1_tape(ctx, "generics", if ctx.quick() { 2000 } else { 40000 }, crate::e1props::c15a_case,
             "(a) generic fam_msg programs (1..3 type parameters; interfaces with 0..2 associated types); parameters assigned to handler arguments directly, nested (Vec<Option<T>>, (T,u32), Box<T>..), only in a query response, or nowhere; optional bound relating two parameters; oracle from the model: for every generated message type the parameter list equals (as a duplicate-free set) the parameters used by the kind's handlers, no bound on its inherent impl mentions another parameter, struct messages carry exactly the surviving predicates, ContractApi aliases name the same lists; same for interface message types over associated types. Non-trivial = a parameter used only nested / only in a response / unused by some kind, or a two-parameter bound.",
-            &["token-level check on in-process expansions (engine E1); compiled generic programs are exercised by C01/C02 (fam_msg has generic programs)", A_DOMAIN, "parameter order inside a generated type is not judged (the statement says `each once`)"]),
+            &["token-level check on in-process expansions (engine E1); compiled generic programs are exercised by C01/C02 (fam_msg has generic programs)", A_DOMAIN, "parameter order inside a generated type is not judged (the statement says `each once`)"]);
+            out.rule.push_str(" || (E3 probe units) two-parameter contracts whose where clause relates the parameters (`T0: B + Rel<T1>` and `T0: B, T0: Rel<T1>`) plus a control with single-parameter bounds: must compile.");
+            crate::e3props::run_probes(ctx, "units_c15", crate::e3props::c15_probes(), None, &mut out);
+            out
+        }
         "C17" => e1_tape(ctx, "placement", if ctx.quick() { 2000 } else { 40000 }, crate::e1props::c17a_case,
             "(a) fam_msg programs with inert marker attributes #[doc = \"vp-N\"] forwarded by sv::msg_attr(kind, ..) (several kinds per program), sv::attr(..) (per handler) and written on handler arguments; oracle: in the parsed expansions of all macros of the program every marker occurs exactly once, on the generated type of that kind / that handler's variant / that argument's field, and nowhere else (proxies, constructors, wrappers, re-emitted input included). Non-trivial = program with >=2 markers on >=2 different kinds of items.",
             &["token-level check on in-process expansions (engine E1); the serde effect of forwarded field attributes is exercised on compiled programs by C03 (missing-field documents with #[serde(default)] arguments)", A_DOMAIN]),
